@@ -543,7 +543,10 @@ class Runner:
         it, jt = ci.split(" "), mi.split(" ")
         if len(it) == len(jt) and all(a == b or a == "?" or b == "?" for a, b in zip(it, jt)):
             return None
-        return "int"
+        # a pmatch array (y op, successful compile) is caller-visible: a difference between the C code and the
+        # matcher model in pmatch[1..] is an OBSERVABLE difference; only regcomp's exact error code (within one
+        # error class) is internal
+        return "obs" if co.startswith("ok") else "int"
 
     def run_x(self, lines, label, nontrivial=True):
         """lines: `x` op lines.  Compare, minimise failures to a single exec, report."""
@@ -910,7 +913,7 @@ def run(ck):
         "re_nsub and regexec rc/pmatch[0] of the real code (ASan+UBSan build, exact-size heap strings, calloc/free "
         "accounting) are compared with the oracle on a bounded-exhaustive family (all trees up to a node bound x all "
         "subjects up to a length bound x flag sets x nmatch in {0,1,nsub+2}), random trees, byte mutations and hand-made "
-        "malformed patterns; pmatch[1..] is monitored with the sub-match clause (pmatchOk) and compared with the AT&T "
+        "malformed patterns; the sub-match clause is proved for the matcher model (submatch_wellformed), pmatch[1..] of the C code is monitored with it on every execution, compared with the model and with the AT&T "
         "reference table.  obligations/discharged count the theorems; evaluations count regcomp+regexec calls compared.")
     ck.cov["trusted_base"] = [
         "Lean 4.33.0 kernel; axioms of the property theorems: subset of propext, Quot.sound, Classical.choice (audited this run)",
@@ -1135,9 +1138,11 @@ def run(ck):
         "for every tree of the parser's shape (wfL 2, repeated groups included; the driver checks the shape of every parsed "
         "pattern at run time), subjects shorter than 32767, any flags and nmatch, rc and pmatch[0] of the model = llmatch. What "
         "is not proved is that the C code equals the model (differential, 0 differences) and pmatch[1..] of the model",
-        "sub-match offsets: pmatchOk_spec / submatch_clause_satisfiable are proved about the reference (the clause is "
-        "satisfiable exactly when a match exists); the values C reports are monitored with pmatchOk, compared with the "
-        "matcher model and with the AT&T table, not proved",
+        "sub-match offsets: the clause (each pmatch[i], i >= 1, is (-1,-1) or an ordered range inside pmatch[0] inside the "
+        "subject; entries past re_nsub unset) is PROVED for the matcher model as an invariant of the exploration "
+        "(submatch_wellformed / submatch_clause_holds) and checked on the C output of every execution by the harness's own "
+        "monitor, independently of the model; WHICH offsets are reported (the POSIX sub-match rules) is compared C vs model "
+        "(whole pmatch array, a difference is reported as observable) and with the AT&T table, not proved",
         "parse_render_ere / parse_render_bre are proved for the full supported syntax incl. bracket expressions rendered from "
         "their bitmaps (ranges, named classes, negation, ] [ ^ - placement); under REG_ICASE/REG_NEWLINE the result is the "
         "stored tree foldRe fl r (identity without flags: *_noflags); the domain is the parser's tree shape (wfE/wfB)",
